@@ -19,7 +19,7 @@ Streams   == {"stdout", "stderr", "combined"}
 Codes     == {"0", "80", "255"}
 Waits     == {"dur", "dur_path", "dur_path_space", "dur_path_special", "dur_path_edge_blank", "dur_path_blank", "dur_zero"}
 EnvVals   == {"plain", "empty", "dquote", "squote", "backslash", "colon_space", "brace", "comma", "hash", "lead_space",
-              "trail_space", "utf8", "looks_bool", "looks_num", "looks_null", "percent_at", "combining"}
+              "trail_space", "utf8", "looks_bool", "looks_num", "looks_null", "percent_at", "combining", "multiline_dashes", "controls"}
 ValuesOf(k) == CASE k = "timeout" -> Durations [] k \in {"keep_crlf", "detached", "strip_ansi_escaping"} -> Bools
                  [] k = "output_stream" -> Streams [] k = "skip_document_code" -> Codes [] k = "wait" -> Waits
 Keys == {"timeout", "keep_crlf", "detached", "strip_ansi_escaping", "output_stream", "skip_document_code", "wait"}
